@@ -25,7 +25,7 @@ RULE = (
     "setup half completed; within one application teardowns run in reverse order of the setups; a failing setup step makes "
     "the entry point raise.  shutdown (placements): a real AppRunner server with up to 4 in-memory connections in "
     "generated phases (idle fresh, idle keep-alive, half a request head, handler finishing after d in {0.3T, 0.8T, 1.5T, "
-    "never}, streaming response) and requests that arrive after the shutdown began; runner.cleanup() is started at a "
+    "never}, streaming response, response write blocked by a peer that does not read) and requests that arrive after the shutdown began; runner.cleanup() is started at a "
     "generated instant under virtual time.  Oracle: idle connections are closed with no virtual time elapsing; a handler "
     "that finishes before T completes and its whole response reaches the peer; every handler has ended by 2T (+ the "
     "documented ceiling of each wait); a request that arrives after the shutdown began never reaches a handler; when "
@@ -341,6 +341,15 @@ def run_shutdown(case: dict) -> dict:
                     return web.Response(text="slept-" + name)
                 if name.startswith("/never"):
                     await loop.create_future()
+                if name.startswith("/bigwrite"):
+                    # the peer does not read: the response write blocks in drain()
+                    resp = web.StreamResponse()
+                    await resp.prepare(request)
+                    for _ in range(8):
+                        await resp.write(b"w" * 100_000)
+                    await resp.write_eof()
+                    ev.append((loop.time(), "handler-finish", name))
+                    return resp
                 if name.startswith("/stream/"):
                     d = float(name.split("/")[2])
                     resp = web.StreamResponse()
@@ -385,6 +394,9 @@ def run_shutdown(case: dict) -> dict:
                     peer.send(f"GET /sleep/{ph['d'] * T + ph['pre'] }/{i} HTTP/1.1\r\nHost: h\r\n\r\n".encode())
                 elif kind == "never":
                     peer.send(f"GET /never/{i} HTTP/1.1\r\nHost: h\r\n\r\n".encode())
+                elif kind == "bigwrite":
+                    pt.pause_reading()
+                    peer.send(f"GET /bigwrite/{i} HTTP/1.1\r\nHost: h\r\n\r\n".encode())
                 elif kind == "stream":
                     peer.send(f"GET /stream/{ph['d'] * T + ph['pre']}/{i} HTTP/1.1\r\nHost: h\r\n\r\n".encode())
             # let the requests start, then advance to the shutdown instant
@@ -446,7 +458,7 @@ def check_shutdown(rec: Rec, case: dict) -> None:
         started = any(e[1] == "handler-start" for e in hs)
         finished = [e for e in hs if e[1] == "handler-finish"]
         cancelled = [e for e in hs if e[1] == "handler-cancelled"]
-        active_at_t0 = started and not any(e[0] <= t0 for e in finished + cancelled) if kind in ("sleep", "never", "stream") else False
+        active_at_t0 = started and not any(e[0] <= t0 for e in finished + cancelled) if kind in ("sleep", "never", "stream", "bigwrite") else False
         if kind in ("fresh", "keepalive") or (kind in ("sleep", "stream") and not active_at_t0 and started):
             # idle at the shutdown instant: closed at once
             if out["snap_time"] != t0:
@@ -495,7 +507,7 @@ def shutdown_cases(draw):
     n = draw(st.integers(1, 4))
     conns = []
     for _ in range(n):
-        kind = draw(st.sampled_from(["fresh", "keepalive", "half", "sleep", "sleep", "never", "stream"]))
+        kind = draw(st.sampled_from(["fresh", "keepalive", "half", "sleep", "sleep", "never", "stream", "bigwrite"]))
         ph = {"kind": kind, "late": draw(st.booleans())}
         if kind in ("sleep", "stream"):
             ph["d"] = draw(st.sampled_from([0.3, 0.8, 1.5, 0.0]))
